@@ -337,7 +337,10 @@ func vfNonASCII(s string) bool {
 // vfOneIn is true for about one draw in n (rapid's integer generators are biased towards small
 // values, so a uniform choice is taken from an explicit list).
 func vfOneIn(rt *rapid.T, n int, label string) bool {
-	if n <= 1 {
+	if n <= 0 {
+		return false // never
+	}
+	if n == 1 {
 		return true
 	}
 	opts := make([]bool, n)
